@@ -235,14 +235,33 @@ func (e *erasureCodingPartStore) PutPart(ctx context.Context, tx database.Tx, pa
 	pipeReaders := make([]*io.PipeReader, e.totalShards)
 	pipeWriters := make([]*io.PipeWriter, e.totalShards)
 	errCh := make(chan error, e.totalShards)
+	started := 0
+	// abort fails every shard writer and waits for the shard stores that were
+	// started, so that none of them still uses tx after PutPart has returned.
+	abort := func(err error) error {
+		for _, pw := range pipeWriters {
+			if pw != nil {
+				_ = pw.CloseWithError(err)
+			}
+		}
+		for ; started > 0; started-- {
+			<-errCh
+		}
+		return err
+	}
 	for i := 0; i < e.totalShards; i++ {
 		pr, pw := io.Pipe()
 		pipeReaders[i], pipeWriters[i] = pr, pw
+		started++
 		go func(idx int) {
-			errCh <- e.partStores[idx].PutPart(ctx, tx, partId, pr)
+			err := e.partStores[idx].PutPart(ctx, tx, partId, pr)
+			// A shard store that returns without draining its reader (it failed
+			// early) must not leave the encoder blocked on the pipe forever.
+			_ = pr.CloseWithError(err)
+			errCh <- err
 		}(i)
 		if _, err := pipeWriters[i].Write(e.shardHeader(i)); err != nil {
-			return err
+			return abort(err)
 		}
 	}
 
@@ -287,10 +306,10 @@ func (e *erasureCodingPartStore) PutPart(ctx context.Context, tx database.Tx, pa
 		for i := 0; i < e.totalShards; i++ {
 			fh := encodeFrameHeader(stripeIndex, n, shards[i])
 			if _, err := pipeWriters[i].Write(fh); err != nil {
-				return err
+				return abort(err)
 			}
 			if _, err := pipeWriters[i].Write(shards[i]); err != nil {
-				return err
+				return abort(err)
 			}
 		}
 		stripeIndex++
